@@ -124,6 +124,24 @@ impl<'a> Shrinker<'a> {
                 }
             }
         }
+        // span probes: keep only the values needed to show the difference
+        for oi in 0..cur.ops.len() {
+            let n = if let OpKind::SpanProbe { targets, .. } = &cur.ops[oi].kind { targets.len() } else { 0 };
+            let mut k = 0;
+            let mut left = n;
+            while k < left && left > 2 && self.budget() {
+                let mut c = cur.clone();
+                if let OpKind::SpanProbe { targets, .. } = &mut c.ops[oi].kind {
+                    targets.remove(k);
+                }
+                if self.fails(&c) {
+                    cur = c;
+                    left -= 1;
+                } else {
+                    k += 1;
+                }
+            }
+        }
         for oi in 0..cur.ops.len() {
             if let OpKind::Fill { front, .. } = &cur.ops[oi].kind {
                 if *front > 0 {
